@@ -419,7 +419,10 @@ def make_find_dirs(build_inputs, buildfile, env):
 
 @ninja.post_rules_hook
 def ninja_find_dirs(build_inputs, buildfile, env):
-    if build_inputs['find_dirs']:
+    # If the regenerate rule names a depfile, it has to exist (even with no
+    # directories in it): Ninja treats a missing depfile as out of date and
+    # would regenerate forever.
+    if build_inputs['find_dirs'] or build_inputs['regenerate'].depfile:
         write_depfile(env, Path(depfile_name), ninja.filepath,
                       build_inputs['find_dirs'])
 
